@@ -138,6 +138,7 @@ fn check<const N: usize>(unit: &str, x: &BigInt<N>, y: &BigInt<N>, sh: u32) -> O
     }
 }
 
+pub static CASES: std::sync::atomic::AtomicU64 = std::sync::atomic::AtomicU64::new(0);
 fn run<const N: usize>(unit: &str, rng: &mut Rng) -> Option<String> {
     let vs = values::<N>(rng);
     let shifts: Vec<u32> = if unit.contains("sh") || unit.contains("muln") || unit.contains("divn") {
@@ -155,6 +156,7 @@ fn run<const N: usize>(unit: &str, rng: &mut Rng) -> Option<String> {
         let ys: Vec<BigInt<N>> = if unary { vec![*x] } else { vs.clone() };
         for y in &ys {
             for sh in &shifts {
+                CASES.fetch_add(1, std::sync::atomic::Ordering::Relaxed);
                 let r = std::panic::catch_unwind(|| check::<N>(unit, x, y, *sh));
                 match r {
                     Ok(None) => {},
